@@ -155,8 +155,12 @@ PROPS["C20"] = a("C01's generator restricted to what core.h can express (no sign
                  "objects behind C callbacks, canonical completion mode; compared build by build (result, executed set, provided values, "
                  "callback sequence) and by the final database dump; force_change, must-follow, discovered dependencies, NUL bytes in keys and "
                  "values and attach_db schema versions are all generated; 15% of programs contain cycles, so builds abandoned by a cycle report and the "
-                 "builds after them on the same engine are compared too. Non-trivial: an incremental build that both skipped and executed rules.")
-PROPS["C20"]["components"] = dict(WORLD_A_COMPONENTS, real=WORLD_A_COMPONENTS["real"] + ["products/libllbuild/Core-C-API.cpp", "products/libllbuild/C-API.cpp"])
+                 "builds after them on the same engine are compared too. Every 5th seed runs a build-system history (world B) instead and then reads its "
+                 "build.db through llb_database_open / get_epoch / get_keys / get_keys_and_results / lookup_rule_result / destroy_result and through the "
+                 "C++ BuildDB interface, and compares keys, values, signatures, epochs and dependency lists. Non-trivial: an incremental build that both skipped and executed rules.")
+PROPS["C20"]["components"] = dict(WORLD_A_COMPONENTS, real=WORLD_A_COMPONENTS["real"] + ["products/libllbuild/Core-C-API.cpp", "products/libllbuild/C-API.cpp",
+                                                                                    "products/libllbuild/BuildDB-C-API.cpp + BuildKey-C-API.cpp (every 5th seed: llb_database_* "
+                                                                                    "read-back of the database a world-B build history left, against the C++ BuildDB read-back)"])
 
 WORLD_D_COMPONENTS = {
     "real": ["lib/Commands/NinjaBuildCommand.cpp (executeNinjaBuildCommand: option parsing, BuildContext, its BuildValue, validity rules, "
